@@ -6,8 +6,18 @@ Part 1 (this section): colour fallback.  "a direct colour being mapped to the pa
 (16-255) nearest to it under the library's weighted distance".
 -/
 import VaxisModel.Model.Color
+import VaxisModel.Model.Width
 import VaxisModel.Spec.Palette
 import VaxisModel.Lemmas.Argmin
+import VaxisModel.Lemmas.RenderGate
+import VaxisModel.Lemmas.C07GateChunk0
+import VaxisModel.Lemmas.C07GateChunk1
+import VaxisModel.Lemmas.C07GateChunk2
+import VaxisModel.Lemmas.C07GateChunk3
+import VaxisModel.Lemmas.C07GateChunk4
+import VaxisModel.Lemmas.C07GateChunk5
+import VaxisModel.Lemmas.C07GateChunk6
+import VaxisModel.Lemmas.C07GateChunk7
 
 namespace VaxisModel.Props.C07
 open VaxisModel.Model.Color VaxisModel.Lemmas
@@ -65,5 +75,110 @@ theorem asIndex_params (c : Color) (h : isRGB c = true) :
 
 -- Non-vacuity: a concrete direct colour, and its image.
 example : isRGB (rgbColor 1 0 0) = true := by decide
+
+
+/-! ## Part 2: only advertised features are used (vocabulary gating) -/
+
+section gating
+open VaxisModel.Model.Render VaxisModel.Lemmas.RenderGate VaxisModel.Lemmas.RenderToks
+
+/-- **Renderer gating.** Every token any frame writes is baseline vocabulary or allowed by the
+    capability set: no direct-colour SGR (38:2 / 48:2 / 58:2) without RGB support — colours are
+    then palette indices —, no `4:n` / 58 / 59 without styled-underline support, no explicit-width
+    text (OSC 66) unless advertised, no synchronized-output brackets unless advertised. For all
+    grids, styles, widths and cursor requests. -/
+theorem render_gated (cw : String → Nat) (f : Frame) :
+    ∀ k ∈ (renderFrame cw f).2, allowedTok f.caps k = true := by
+  have hbody : ∀ k ∈ (renderBody cw f).2, allowedTok f.caps k = true := by
+    intro k hk
+    unfold renderBody at hk
+    simp only [List.mem_append] at hk
+    rcases hk with (hk | hk) | hk
+    · refine renderRows_allowed cw f.caps f.refresh f.next f.last 0 _ ?_ k hk
+      intro k' hk'
+      simp only at hk'
+      split at hk' <;> simp at hk'
+      subst hk'; rfl
+    · simp at hk; rw [hk.2]; rfl
+    · split at hk
+      · simp [showCursorToks] at hk
+        rcases hk with rfl | rfl | rfl <;> rfl
+      · simp at hk
+  intro k hk
+  unfold renderFrame flush at hk
+  simp only at hk
+  split at hk
+  · repeat' split at hk
+    all_goals simp [showCursorToks] at hk
+    all_goals (first | (subst hk; rfl) | (rcases hk with rfl | rfl | rfl <;> rfl))
+  · simp only [List.mem_append, List.mem_singleton] at hk
+    rcases hk with ((((hk | hk) | hk) | hk) | hk) | hk
+    · split at hk <;> simp at hk
+      subst hk; rfl
+    · split at hk
+      · rename_i hs; simp at hk; subst hk; simp [allowedTok, hs]
+      · simp at hk
+    · exact hbody k hk
+    · subst hk; simp [allowedTok]
+    · split at hk
+      · simp [showCursorToks] at hk
+        rcases hk with rfl | rfl | rfl <;> rfl
+      · simp at hk
+    · split at hk
+      · rename_i hs; simp at hk; subst hk; simp [allowedTok, hs]
+      · simp at hk
+
+/-- Without RGB support a direct colour is sent as exactly one palette index in 16..255 (the
+    nearest entry, by `asIndex_nearest`), and default / indexed colours are sent unchanged. -/
+theorem no_rgb_means_indexed (caps : Caps) (h : caps.rgb = false) (c : Color) :
+    (isRGB c = true → ∃ i, 16 ≤ i ∧ i ≤ 255 ∧ effParams caps c = [i]) ∧
+    (isRGB c = false → effParams caps c = params c) := by
+  unfold effParams
+  simp only [h, Bool.false_eq_true, if_false]
+  exact ⟨fun hr => asIndex_params c hr, fun hr => by rw [asIndex_id c hr]⟩
+
+end gating
+
+section lifecycle_gating
+open VaxisModel.Lemmas.C07Gate VaxisModel.Lemmas.C04Check
+
+private theorem range_sound (lo : Nat) (h : gateRange lo 64 = true) : ∀ m, lo ≤ m → m < lo + 64 → gatedB m = true := by
+  intro m h1 h2
+  unfold gateRange at h
+  rw [List.all_eq_true] at h
+  have := h (m - lo) (by simp; omega)
+  have e : lo + (m - lo) = m := by omega
+  rwa [e] at this
+
+/-- **Lifecycle gating.** For every assignment of the capability/option variables, everything
+    written after the device-attributes reply by start-up (alternate screen + enableModes),
+    Suspend and Resume is baseline vocabulary or gated by an advertised capability: kitty keyboard
+    push/pop ⇒ kittyKeyboard; 2027 ⇒ unicodeCore ∧ ¬explicitWidth; 8452 ⇒ sixel; 2031 and DSR 996 ⇒
+    colour-scheme reports; 2048 ⇒ in-band resize; 2026 ⇒ synchronized output; OSC 176 ⇒ osc176.
+    (Interpreted from the statement lists regenerated from vaxis.go.) -/
+theorem lifecycle_gated (m : Nat) (hm : m < 512) : gatedB m = true := by
+  rcases (by omega : (0 ≤ m ∧ m < 64) ∨ (64 ≤ m ∧ m < 128) ∨ (128 ≤ m ∧ m < 192) ∨ (192 ≤ m ∧ m < 256) ∨ (256 ≤ m ∧ m < 320) ∨ (320 ≤ m ∧ m < 384) ∨ (384 ≤ m ∧ m < 448) ∨ (448 ≤ m ∧ m < 512)) with h | h | h | h | h | h | h | h
+  · exact range_sound 0 gate_chunk0 m (by omega) (by omega)
+  · exact range_sound 64 gate_chunk1 m (by omega) (by omega)
+  · exact range_sound 128 gate_chunk2 m (by omega) (by omega)
+  · exact range_sound 192 gate_chunk3 m (by omega) (by omega)
+  · exact range_sound 256 gate_chunk4 m (by omega) (by omega)
+  · exact range_sound 320 gate_chunk5 m (by omega) (by omega)
+  · exact range_sound 384 gate_chunk6 m (by omega) (by omega)
+  · exact range_sound 448 gate_chunk7 m (by omega) (by omega)
+
+end lifecycle_gating
+
+/-! ## Part 3: width method -/
+
+open VaxisModel.Model.Width
+
+/-- Graphemes are measured by Unicode grapheme width exactly when the terminal advertised
+    Unicode-core mode or explicit-width text (it then renders clusters at that width), and by the
+    per-code-point `wcwidth` sum exactly when it advertised neither and has no ZWJ quirk. -/
+theorem width_method (u e z : Bool) :
+    (widthMethod u e z = .unicodeStd ↔ (u = true ∨ e = true)) ∧
+    (widthMethod u e z = .wcwidth ↔ (u = false ∧ e = false ∧ z = false)) := by
+  cases u <;> cases e <;> cases z <;> simp [widthMethod]
 
 end VaxisModel.Props.C07
